@@ -190,12 +190,24 @@ func c14(r *engine.Report, p *engine.Program) {
 		// not be read back, positioned, truncated or written must not look like a successful update
 		{
 			nIO := 0
-			for _, n := range []string{"(*workceptor.StatusFileData).Save", "(*workceptor.StatusFileData).Load", "(*workceptor.StatusFileData).UpdateFullStatus",
-				"(*workceptor.StatusFileData).saveToFile", "(*workceptor.StatusFileData).loadFromFile"} {
+			// the three primitives and the private codec helpers they call (saveToFile/loadFromFile on
+			// the pinned tree, identified by what they do, not by name)
+			var prims []*ssa.Function
+			codec := map[*ssa.Function]bool{}
+			for _, n := range []string{"(*workceptor.StatusFileData).Save", "(*workceptor.StatusFileData).Load", "(*workceptor.StatusFileData).UpdateFullStatus"} {
 				fn := p.Func(n)
 				if fn == nil {
 					continue
 				}
+				prims = append(prims, fn)
+				for _, ci := range append(privateCodecCalls(fn, "encoding/json.Marshal"), privateCodecCalls(fn, "encoding/json.Unmarshal")...) {
+					if c := ci.Common().StaticCallee(); !codec[c] {
+						codec[c] = true
+						prims = append(prims, c)
+					}
+				}
+			}
+			for _, fn := range prims {
 				for _, ci := range engine.CallsIn(fn) {
 					call, isCall := ci.(*ssa.Call)
 					if !isCall {
@@ -206,9 +218,11 @@ func c14(r *engine.Report, p *engine.Program) {
 						continue
 					}
 					switch o.Name() {
-					case "OpenFile", "Open", "Seek", "Truncate", "Write", "Read", "ReadAll", "Marshal", "Unmarshal", "lockStatusFile", "loadFromFile", "saveToFile", "Sync":
+					case "OpenFile", "Open", "Seek", "Truncate", "Write", "Read", "ReadAll", "Marshal", "Unmarshal", "lockStatusFile", "Sync":
 					default:
-						continue
+						if !codec[call.Common().StaticCallee()] {
+							continue
+						}
 					}
 					nIO++
 					okp, why := errorPropagates(fn, call)
@@ -285,8 +299,8 @@ func c14(r *engine.Report, p *engine.Program) {
 				}
 			}
 		}
-		loads := callsTo(ufs, "(*workceptor.StatusFileData).loadFromFile")
-		saves := callsTo(ufs, "(*workceptor.StatusFileData).saveToFile")
+		loads := privateCodecCalls(ufs, "encoding/json.Unmarshal")
+		saves := privateCodecCalls(ufs, "encoding/json.Marshal")
 		ok := cb != nil && len(loads) == 1 && len(saves) == 1
 		why := "callback call, loadFromFile or saveToFile not found in UpdateFullStatus"
 		if ok {
@@ -442,4 +456,24 @@ func isParamValue(v ssa.Value, prm *ssa.Parameter) bool {
 		}
 	}
 	return false
+}
+
+// privateCodecCalls lists the calls in fn to an unexported function or method of fn's own package
+// whose body calls the named standard function (json.Marshal: the record writer saveToFile;
+// json.Unmarshal: the record reader loadFromFile).
+func privateCodecCalls(fn *ssa.Function, std string) []ssa.CallInstruction {
+	var out []ssa.CallInstruction
+	for _, ci := range engine.CallsIn(fn) {
+		c := ci.Common().StaticCallee()
+		if c == nil || len(c.Blocks) == 0 || c.Pkg != fn.Pkg || c == fn {
+			continue
+		}
+		if o, _ := c.Object().(*types.Func); o == nil || o.Exported() {
+			continue
+		}
+		if len(callsTo(c, std)) > 0 {
+			out = append(out, ci)
+		}
+	}
+	return out
 }
